@@ -99,6 +99,7 @@ type Table struct {
 	ufs  map[string]bool
 	UsesFloatConv bool
 	Selects map[string][]*Term
+	strict  bool
 }
 
 func NewTable() *Table {
@@ -911,6 +912,15 @@ type Model struct {
 	UFs  map[string]map[uint64]uint8
 }
 
+type modelMiss struct{}
+
+// EvalStrict is Eval that panics with modelMiss when the model lacks a symbol or array read.
+func (tb *Table) EvalStrict(t *Term, m *Model, memo map[int]uint64) uint64 {
+	tb.strict = true
+	defer func() { tb.strict = false }()
+	return tb.Eval(t, m, memo)
+}
+
 func (tb *Table) Eval(t *Term, m *Model, memo map[int]uint64) uint64 {
 	if v, ok := memo[t.ID]; ok {
 		return v
@@ -935,9 +945,26 @@ func (tb *Table) Eval(t *Term, m *Model, memo map[int]uint64) uint64 {
 	case OpConst:
 		r = t.Val
 	case OpVar:
-		r = m.Vars[t.Name]
+		v, ok := m.Vars[fmt.Sprintf("%s@%d", t.Name, t.W)]
+		if !ok {
+			v, ok = m.Vars[t.Name]
+		}
+		if !ok && tb.strict {
+			// a symbol the path condition does not mention yet: any value extends the model
+			m.Vars[fmt.Sprintf("%s@%d", t.Name, t.W)] = 0
+		}
+		r = v
 	case OpSelect:
-		r = uint64(m.UFs[t.Name][a(0)])
+		idx := a(0)
+		v, ok := m.UFs[t.Name][idx]
+		if !ok && tb.strict {
+			// an array cell no constraint mentions yet: fix it to 0 in the extended model
+			if m.UFs[t.Name] == nil {
+				m.UFs[t.Name] = map[uint64]uint8{}
+			}
+			m.UFs[t.Name][idx] = 0
+		}
+		r = uint64(v)
 	case OpAdd:
 		r = a(0) + a(1)
 	case OpSub:
@@ -1039,8 +1066,14 @@ func (tb *Table) Eval(t *Term, m *Model, memo map[int]uint64) uint64 {
 	case OpBNot:
 		r = b2u(a(0) == 0)
 	case OpF32to64:
+		if tb.strict {
+			panic(modelMiss{}) // uninterpreted in the solver: its model need not be IEEE
+		}
 		r = float64bits(float64(float32frombits(uint32(a(0)))))
 	case OpF64to32:
+		if tb.strict {
+			panic(modelMiss{})
+		}
 		r = uint64(float32bits(float32(float64frombits(a(0)))))
 	default:
 		panic("eval: op")
